@@ -485,11 +485,17 @@ func (af *AdaptationField) SetHasTransportPrivateData(value bool) error {
 		return err
 	}
 	delta := 1 * af.bitDelta(5, 0x02, value)
-	err := af.resizeAF(af.transportPrivateDataStart(), delta)
+	if delta < 0 {
+		delta = -af.transportPrivateDataLength() // remove the length byte and the data
+	}
+	start := af.transportPrivateDataStart()
+	err := af.resizeAF(start, delta)
 	if err != nil {
 		return err
 	}
-	af[af.transportPrivateDataStart()] = 0 // zero length by default
+	if delta > 0 {
+		af[start] = 0 // zero length by default
+	}
 	af.setBit(5, 0x02, value)
 	return nil
 }
